@@ -85,6 +85,11 @@ func (v MV) toGo(flavour int) interface{} {
 	case mkBool:
 		return v.B
 	case mkNum:
+		if v.N > 1<<53 || v.N < -(1<<53) {
+			// a float64 (or the int -> float64 path of the library's input normalisation) cannot
+			// hold it: hand it over the way a formula would have produced it
+			return decimal.WithContext(decimal.Context128).SetMantScale(v.N, 0)
+		}
 		switch flavour % 4 {
 		case 0:
 			return int(v.N)
@@ -295,6 +300,16 @@ func (n *MNode) text(cx int) string {
 	return "null"
 }
 
+// stubsUsed lists the host functions a formula calls.
+func (n *MNode) stubsUsed(into map[string]bool) {
+	if n.Op == nCall {
+		into[n.Name] = true
+	}
+	for _, k := range n.Kids {
+		k.stubsUsed(into)
+	}
+}
+
 func (n *MNode) size() int {
 	c := 1
 	for _, k := range n.Kids {
@@ -441,13 +456,33 @@ func (e *mEnv) eval(n *MNode) (MV, error) {
 		if a.K != mkNum || b.K != mkNum {
 			return mNull(), errModelType
 		}
+		// the model's integers are int64: outside +-2^62 it declines (the generator never
+		// produces such operands; a formula evaluated again and again can grow into it)
+		const lim = int64(1) << 62
+		var r int64
 		switch n.Op {
 		case nSub:
-			return mNum(a.N - b.N), nil
+			r = a.N - b.N
+			if (a.N >= 0) != (b.N >= 0) && (r >= 0) != (a.N >= 0) {
+				return mNull(), errModelType
+			}
 		case nMul:
-			return mNum(a.N * b.N), nil
+			if a.N != 0 && b.N != 0 {
+				if a.N > 1<<31 || a.N < -(1<<31) || b.N > 1<<30 || b.N < -(1<<30) {
+					return mNull(), errModelType
+				}
+			}
+			r = a.N * b.N
+		default:
+			r = a.N + b.N
+			if (a.N >= 0) == (b.N >= 0) && (r >= 0) != (a.N >= 0) {
+				return mNull(), errModelType
+			}
 		}
-		return mNum(a.N + b.N), nil
+		if r > lim || r < -lim {
+			return mNull(), errModelType
+		}
+		return mNum(r), nil
 	case nNeg:
 		a, err := e.eval(n.Kids[0])
 		if err != nil {
